@@ -5,6 +5,7 @@ CONSTANTS
   Shapes <- ShapesNone
   Types = {}
   RasDims <- RDimsA
+  ScaleSets <- ScalesAll
   MaxObjs = 8
   MaxOps = 5
   Mix = FALSE
